@@ -1,11 +1,788 @@
-//! C02 -- not built yet (stub so the crate layout is stable).
-use crate::engine::report::{Ctx, Report};
-use serde_json::Value;
+//! C02 -- input decoding is total: no byte stream can crash it or yield malformed events.
+//!
+//! Spaces (enumerated completely in worker subprocesses, so that an abort or a hang is attributed
+//! to the exact input and confirmed in a fresh process):
+//!  B  every byte string of length <= 2 (quick) / 3 (thorough) over all 256 bytes, three decoders,
+//!     fed whole / at every cut / byte by byte with empty reads;
+//!  U  UTF-8 lattice: every lead byte x continuation bytes from the boundary set (overlong,
+//!     surrogate, > U+10FFFF, truncated), and every Unicode scalar value well-formed;
+//!  H  hostile-token lattice: every sequence family's syntax with every numeric field drawn from
+//!     the hostile set (empty, 0, 1, ..., 2^64, 20 and 40 nines, leading zeros), list shapes,
+//!     payload variants; numeric fields of the decoded event must be exact, clamped, or the
+//!     sequence must come out unrecognised - never wrapped or truncated;
+//!  E  all single (thorough: double) byte edits of base tokens - a deviation-bounded
+//!     neighbourhood of well-formed input.
+//! (All strings up to length 4-5 over the representative alphabet under all partitions are
+//! covered by the same driver in C03; totality problems found there are reported there.)
+use super::c03::{check_and_report, descriptor, for_strings, string_witness, which_from_u8, Local};
+use super::decoder_common::*;
+use crate::engine::catch;
+use crate::engine::report::{Ctx, Report, Tier, Violation};
+use crate::engine::util::{esc, hex, unhex};
+use crate::engine::workers::{self, WorkerCtx};
+use serde_json::{json, Value};
+use std::collections::BTreeMap;
+use std::time::{Duration, Instant};
+use surf_n_term::{KeyName, TerminalCommand, TerminalEvent};
 
-pub fn run(_ctx: &Ctx) -> Result<Report, String> {
-    Err("C02: check not built yet".into())
+pub const HOSTILE: [&str; 16] = [
+    "",
+    "0",
+    "1",
+    "9",
+    "10",
+    "255",
+    "256",
+    "65535",
+    "65536",
+    "4294967295",
+    "4294967296",
+    "18446744073709551615",
+    "18446744073709551616",
+    "99999999999999999999",
+    "9999999999999999999999999999999999999999",
+    "007",
+];
+
+/// exact value of a decimal string, saturating at u128::MAX
+fn exact(text: &str) -> Option<u128> {
+    if text.is_empty() {
+        return None;
+    }
+    let mut v: u128 = 0;
+    for b in text.bytes() {
+        if !b.is_ascii_digit() {
+            return None;
+        }
+        v = v.saturating_mul(10).saturating_add((b - b'0') as u128);
+    }
+    Some(v)
 }
 
-pub fn replay(_w: &Value) -> Result<(bool, String), String> {
-    Err("C02: check not built yet".into())
+/// a decoded numeric field is acceptable if it is the exact value or the field's maximum
+/// (clamped); an empty parameter may be read as 0 or as the protocol default 1
+fn num_ok(text: &str, actual: u128, max: u128) -> bool {
+    match exact(text) {
+        None => actual == 0 || actual == 1,
+        Some(e) => {
+            if e <= max {
+                actual == e
+            } else {
+                actual == max
+            }
+        }
+    }
+}
+
+/// 1-based coordinate decoded to 0-based
+fn coord_ok(text: &str, actual: u128, max: u128) -> bool {
+    match exact(text) {
+        None => actual == 0,
+        Some(0) => actual == 0, // clamped
+        Some(e) => {
+            if e - 1 <= max {
+                actual == e - 1
+            } else {
+                actual == max
+            }
+        }
+    }
+}
+
+#[derive(Clone)]
+pub struct Template {
+    pub family: &'static str,
+    /// literal pieces interleaved with numeric fields: pieces.len() == fields + 1
+    pub pieces: Vec<Vec<u8>>,
+}
+
+fn tpl(family: &'static str, pattern: &str) -> Template {
+    // `#` marks a numeric field, `\e` is ESC
+    let bytes = pattern.replace("\\e", "\x1b").into_bytes();
+    let pieces: Vec<Vec<u8>> = bytes.split(|b| *b == b'#').map(|p| p.to_vec()).collect();
+    Template { family, pieces }
+}
+
+pub fn templates() -> Vec<Template> {
+    vec![
+        tpl("cursor", "\\e[#;#R"),
+        tpl("mouse", "\\e[<#;#;#M"),
+        tpl("mouse", "\\e[<#;#;#m"),
+        tpl("decmode", "\\e[?#;#$y"),
+        tpl("da1", "\\e[?#c"),
+        tpl("da1", "\\e[?#;#c"),
+        tpl("da1", "\\e[?#;#;c"),
+        tpl("sgr", "\\e[#m"),
+        tpl("sgr", "\\e[#;#m"),
+        tpl("sgr", "\\e[38;5;#m"),
+        tpl("sgr", "\\e[48;5;#m"),
+        tpl("sgr-rgb", "\\e[38;2;#;#;#m"),
+        tpl("sgr-rgb", "\\e[48:2:#:#:#m"),
+        tpl("sgr-rgb", "\\e[58:2::#:#:#m"),
+        tpl("sgr", "\\e[4:#m"),
+        tpl("sgr", "\\e[#:#;#m"),
+        tpl("kitty-image", "\\e_Gi=#;OK\\e\\"),
+        tpl("kitty-image", "\\e_Gi=#,p=#;OK\\e\\"),
+        tpl("kitty-image", "\\e_Gi=#,p=#;ENOENT:x\\e\\"),
+        tpl("kitty-key", "\\e[#u"),
+        tpl("kitty-key", "\\e[#;#u"),
+        tpl("kitty-key", "\\e[#:#;#:#u"),
+        tpl("kitty-key", "\\e[#;#;#u"),
+        tpl("kitty-level", "\\e[?#u"),
+        tpl("osc", "\\e]#;#;rgb:ff/00/7f\\e\\"),
+        tpl("osc", "\\e]#;rgb:ff/00/7f\x07"),
+        tpl("osc", "\\e]4;#;#ff007f\\e\\"),
+        tpl("decrpss", "\\eP1$r#;#m\\e\\"),
+        tpl("decrpss", "\\eP1$r38;2;#;#;#m\\e\\"),
+        tpl("decrpss", "\\eP0$r#m\\e\\"),
+        tpl("size", "\\e[8;#;#t\\e[4;#;#t"),
+        tpl("tilde-key", "\\e[#~"),
+        tpl("tilde-key", "\\e[#;#~"),
+        tpl("arrow-key", "\\e[1;#A"),
+        tpl("arrow-key", "\\e[#;#A"),
+        tpl("paste", "\\e[200~#\\e[201~"),
+    ]
+}
+
+fn render(t: &Template, fields: &[&str]) -> Vec<u8> {
+    let mut out = t.pieces[0].clone();
+    for (i, f) in fields.iter().enumerate() {
+        out.extend_from_slice(f.as_bytes());
+        out.extend_from_slice(&t.pieces[i + 1]);
+    }
+    out
+}
+
+/// extra fixed hostile tokens (list shapes, payloads, truncations)
+pub fn fixed_tokens() -> Vec<Vec<u8>> {
+    let mut v: Vec<Vec<u8>> = vec![];
+    for s in [
+        "\x1b[u", "\x1b[;u", "\x1b[;;u", "\x1b[:u", "\x1b[::;::u", "\x1b[m", "\x1b[;m", "\x1b[;;m", "\x1b[1;m", "\x1b[:m",
+        "\x1b[38m", "\x1b[38;m", "\x1b[38;5m", "\x1b[38;2m", "\x1b[38;2;1m", "\x1b[38;2;1;2m", "\x1b[38:2m", "\x1b[38:5m",
+        "\x1b[38;9;1m", "\x1b[48;2;1;2;3;4;5m", "\x1b[4:m", "\x1b[4:9m", "\x1b[58;5;1m", "\x1b[?c", "\x1b[?;c", "\x1b[?1;;c",
+        "\x1b[?u", "\x1b_G;\x1b\\", "\x1b_Gi=1\x1b\\", "\x1b_Gi=;OK\x1b\\", "\x1b_Gi=1,,p=2;OK\x1b\\", "\x1b_Gi=1,p;OK\x1b\\",
+        "\x1b_Gi=1,i=2;OK\x1b\\", "\x1b_Ga=b;\x1b\\", "\x1b]4\x1b\\", "\x1b]4;\x1b\\", "\x1b]4;1\x1b\\", "\x1b]4;1;\x1b\\",
+        "\x1b]10;rgb:\x1b\\", "\x1b]10;rgb:1\x1b\\", "\x1b]10;rgb:1/2\x1b\\", "\x1b]10;rgb:12345/1/1\x1b\\", "\x1b]10;rgb:/ /\x1b\\",
+        "\x1b]10;rgb:g/0/0\x1b\\", "\x1b]10;#\x1b\\", "\x1b]10;#1\x1b\\", "\x1b]10;#12345\x1b\\", "\x1b]10;#1234567890\x1b\\",
+        "\x1b]10;#gggggg\x1b\\", "\x1b]11;?\x1b\\", "\x1b]12;x\x07", "\x1b]10;rgb:+1/-1/ 1\x07", "\x1b]10;#+1+1+1\x07",
+        "\x1bP1$r\x1b\\", "\x1bP1$rm\x1b\\", "\x1bP1$r;m\x1b\\", "\x1bP1$rx\x1b\\", "\x1bP0$r\x1b\\", "\x1bP1+r\x1b\\",
+        "\x1bP0+r\x1b\\", "\x1bP1+r41=\x1b\\", "\x1bP1+r=41\x1b\\", "\x1bP1+r41=42;\x1b\\", "\x1bP1+r4=4\x1b\\", "\x1bP1+r41=42;43\x1b\\",
+        "\x1bP1+rff=fe\x1b\\", "\x1bP0+rff;fe\x1b\\", "\x1bP1+r80=c3\x1b\\", "\x1b[200~\x1b[201~", "\x1b[200~\x1b", "\x1b[200~\x1b[",
+        "\x1b[200~\x1b[201", "\x1b[200~a\x1b[200~b\x1b[201~", "\x1b[8;1;1t", "\x1b[8;1;1t\x1b[4;1;1", "\x1b[8;;t\x1b[4;;t",
+        "\x1b", "\x1b\x1b", "\x1b[", "\x1bO", "\x1bP", "\x1b]", "\x1b_", "\x1b[<", "\x1b[<1", "\x1b[<1;", "\x1b[<1;1;1",
+    ] {
+        v.push(s.as_bytes().to_vec());
+    }
+    // non UTF-8 and long payloads
+    for payload in [vec![0xffu8, 0xfe], vec![0xc3], vec![0xed, 0xa0, 0x80], vec![b'x'; 4096]] {
+        let mut t = b"\x1b[200~".to_vec();
+        t.extend(&payload);
+        t.extend(b"\x1b[201~");
+        v.push(t);
+        let mut t = b"\x1b]10;".to_vec();
+        t.extend(&payload);
+        t.extend(b"\x1b\\");
+        v.push(t);
+        let mut t = b"\x1b_Gi=1;".to_vec();
+        t.extend(&payload);
+        t.extend(b"\x1b\\");
+        v.push(t);
+        let mut t = b"\x1bP1$r".to_vec();
+        t.extend(&payload);
+        t.extend(b"m\x1b\\");
+        v.push(t);
+    }
+    v
+}
+
+/// Field check of the first decoded item of a rendered template.
+fn field_problem(t: &Template, fields: &[&str], first: Option<&Out>) -> Option<String> {
+    let um = usize::MAX as u128;
+    let ev = match first {
+        Some(Out::Event(e)) => e,
+        _ => return None,
+    };
+    match (t.family, ev) {
+        ("cursor", TerminalEvent::CursorPosition(p)) => {
+            if !coord_ok(fields[0], p.row as u128, um) || !coord_ok(fields[1], p.col as u128, um) {
+                return Some(format!("cursor report fields {:?} decoded as {:?}", fields, p));
+            }
+        }
+        ("mouse", TerminalEvent::Mouse(m)) => {
+            if !coord_ok(fields[1], m.pos.col as u128, um) || !coord_ok(fields[2], m.pos.row as u128, um) {
+                return Some(format!("mouse report fields {:?} decoded as {:?}", fields, m));
+            }
+        }
+        ("size", TerminalEvent::Size(s)) => {
+            let got = [s.cells.height, s.cells.width, s.pixels.height, s.pixels.width];
+            for i in 0..4 {
+                if !num_ok(fields[i], got[i] as u128, um) {
+                    return Some(format!("size report fields {:?} decoded as {:?}", fields, s));
+                }
+            }
+        }
+        ("kitty-image", TerminalEvent::KittyImage { id, placement, .. }) => {
+            if !num_ok(fields[0], *id as u128, u64::MAX as u128) {
+                return Some(format!("kitty image id {:?} decoded as {}", fields[0], id));
+            }
+            if fields.len() > 1 {
+                if let Some(p) = placement {
+                    if !num_ok(fields[1], *p as u128, u64::MAX as u128) {
+                        return Some(format!("kitty placement {:?} decoded as {}", fields[1], p));
+                    }
+                }
+            }
+        }
+        ("kitty-level", TerminalEvent::KeyboardLevel(l)) => {
+            if !num_ok(fields[0], *l as u128, um) {
+                return Some(format!("keyboard level {:?} decoded as {}", fields[0], l));
+            }
+        }
+        ("kitty-key", TerminalEvent::Key(k)) => {
+            if let KeyName::Char(c) = k.name {
+                // the code field must be the scalar value itself
+                match exact(fields[0]) {
+                    Some(e) if e == c as u128 => {}
+                    None if (c as u32) <= 1 => {}
+                    // documented aliases in the key table (13 enter, 9 tab, 27 esc, 127 backspace) are not Char
+                    other => return Some(format!("kitty key code {:?} ({:?}) decoded as {:?}", fields[0], other, k)),
+                }
+            }
+            if let KeyName::F(n) = k.name {
+                match exact(fields[0]) {
+                    Some(e) if (57376..=57398).contains(&e) && e - 57376 + 13 == n as u128 => {}
+                    other => return Some(format!("kitty key code {:?} ({:?}) decoded as {:?}", fields[0], other, k)),
+                }
+            }
+        }
+        ("da1", TerminalEvent::DeviceAttrs(set)) => {
+            // every reported attribute must be one of the transmitted numbers (exact or clamped)
+            for a in set {
+                if !fields.iter().any(|f| exact(f).is_some() && num_ok(f, *a as u128, um)) {
+                    return Some(format!("DA1 fields {:?} decoded as {:?}", fields, set));
+                }
+            }
+        }
+        ("decmode", TerminalEvent::DecMode { mode, status }) => {
+            if exact(fields[0]) != Some(*mode as usize as u128) || exact(fields[1]) != Some(*status as usize as u128) {
+                return Some(format!("DECRPM fields {:?} decoded as {:?}/{:?}", fields, mode, status));
+            }
+        }
+        ("osc", TerminalEvent::Color { name, .. }) => {
+            if let surf_n_term::TerminalColor::Palette(i) = name {
+                let f = if t.pieces[0].ends_with(b"4;") { fields[0] } else { fields[1] };
+                if !num_ok(f, *i as u128, um) {
+                    return Some(format!("palette index {:?} decoded as {}", f, i));
+                }
+            }
+        }
+        ("sgr-rgb", TerminalEvent::Command(TerminalCommand::FaceModify(m))) => {
+            for c in [m.fg, m.bg, m.underline_color].into_iter().flatten() {
+                let [r, g, b, _] = surf_n_term::Color::to_rgba(c);
+                let got = [r, g, b];
+                for i in 0..3 {
+                    if !num_ok(fields[i], got[i] as u128, 255) {
+                        return Some(format!("SGR colour components {:?} decoded as {:?}", fields, got));
+                    }
+                }
+            }
+        }
+        _ => {}
+    }
+    None
+}
+
+struct Params {
+    bytes_len: usize,
+    double_edits: bool,
+}
+
+fn params(tier: Tier) -> Params {
+    match tier {
+        Tier::Quick => Params { bytes_len: 2, double_edits: false },
+        Tier::Thorough => Params { bytes_len: 3, double_edits: true },
+    }
+}
+
+fn edit_alphabet() -> Vec<u8> {
+    super::c03::base_alphabet(Which::Event)
+}
+
+fn small_edit_alphabet() -> Vec<u8> {
+    vec![0x1b, b'[', b';', b':', b'0', b'9', b'm', b'R', b'u', b'~', b'\\', 0x80]
+}
+
+fn single_edits(base: &[u8], alpha: &[u8], f: &mut dyn FnMut(&[u8])) {
+    let mut buf: Vec<u8> = Vec::with_capacity(base.len() + 1);
+    for i in 0..=base.len() {
+        // insert
+        for b in alpha {
+            buf.clear();
+            buf.extend_from_slice(&base[..i]);
+            buf.push(*b);
+            buf.extend_from_slice(&base[i..]);
+            f(&buf);
+        }
+        if i < base.len() {
+            // delete
+            buf.clear();
+            buf.extend_from_slice(&base[..i]);
+            buf.extend_from_slice(&base[i + 1..]);
+            f(&buf);
+            // replace
+            for b in alpha {
+                if *b == base[i] {
+                    continue;
+                }
+                buf.clear();
+                buf.extend_from_slice(base);
+                buf[i] = *b;
+                f(&buf);
+            }
+        }
+    }
+}
+
+fn base_tokens() -> Vec<Vec<u8>> {
+    let mut v = vec![];
+    for t in templates() {
+        let n = t.pieces.len() - 1;
+        for fill in ["1", "0", "65536"] {
+            let fields: Vec<&str> = (0..n).map(|_| fill).collect();
+            v.push(render(&t, &fields));
+        }
+    }
+    for s in [
+        "\x1bOP", "\x1b[A", "\x1b[1;5A", "\x1b[15~", "\x1b[15;3~", "\x1ba", "\x1b[?1000;1$y", "\x1b[?62;4c", "\x1b[97;15R",
+        "\x1b[<0;94;14M", "\x1b]4;1;rgb:cc/24/1d\x1b\\", "\x1b]10;#ebdbb2\x07", "\x1bP1$r48:2:1:2:3m\x1b\\",
+        "\x1bP1+r62656c=5e47;626f6c64=1b5b316d\x1b\\", "\x1bP0+r73757266;7465726d\x1b\\", "\x1b_Gi=31,p=11;error message\x1b\\",
+        "\x1b[200~ab\x1b[201~", "\x1b[99;5u", "\x1b[?15u", "\x1b[8;101;202t\x1b[4;3104;1482t", "\x1b[1;4;91;102m", "\x1b[38:2:255:128:64m",
+        "\u{e9}\u{4e16}\u{1F431}",
+    ] {
+        v.push(s.as_bytes().to_vec());
+    }
+    v.sort();
+    v.dedup();
+    v
+}
+
+fn parts_light_cached(cache: &mut BTreeMap<usize, Vec<Vec<usize>>>, n: usize) -> &Vec<Vec<usize>> {
+    cache.entry(n).or_insert_with(|| {
+        if n <= 5 {
+            let mut v = all_partitions(n);
+            let mut e = vec![0usize];
+            for _ in 0..n {
+                e.push(1);
+                e.push(0);
+            }
+            v.push(e);
+            v
+        } else {
+            light_partitions(n)
+        }
+    })
+}
+
+pub fn worker(ctx: &Ctx, mut wc: WorkerCtx, _extra: &[String]) {
+    let p = params(ctx.tier);
+    let mut local = Local { viol: BTreeMap::new() };
+    let mut case: u64 = 0;
+    let mut unit: u64 = 0;
+    let shard = wc.shard as u64;
+    let shards = wc.shards as u64;
+    let resume = wc.resume;
+    let mut cache: BTreeMap<usize, Vec<Vec<usize>>> = BTreeMap::new();
+    let whiches = [Which::Event, Which::Command, Which::Utf8];
+
+    // ---- B: all byte strings up to bytes_len
+    {
+        let all: Vec<u8> = (0..=255u8).collect();
+        for which in whiches {
+            for first in 0..256usize {
+                unit += 1;
+                if unit % shards != shard {
+                    continue;
+                }
+                let mut n = 0u64;
+                for_strings(&all, first, p.bytes_len, &mut |s| {
+                    case += 1;
+                    if case <= resume {
+                        return;
+                    }
+                    wc.begin_case(case, &descriptor(0, which, s, &[]));
+                    n += 1;
+                    let parts = parts_light_cached(&mut cache, s.len()).clone();
+                    check_and_report(&mut wc, &mut local, which, s, &parts, "light", false);
+                });
+                wc.count("B_strings", n);
+            }
+        }
+    }
+
+    // ---- U: UTF-8 lattice
+    {
+        let conts: [u8; 8] = [0x80, 0x8F, 0x90, 0x9F, 0xA0, 0xBF, 0x7F, 0xC0];
+        for which in whiches {
+            for lead in 0xC0..=0xFFu8 {
+                unit += 1;
+                if unit % shards != shard {
+                    continue;
+                }
+                let mut n = 0u64;
+                let mut seqs: Vec<Vec<u8>> = vec![vec![lead]];
+                for len in 1..=3 {
+                    let mut idx = vec![0usize; len];
+                    loop {
+                        let mut s = vec![lead];
+                        s.extend(idx.iter().map(|i| conts[*i]));
+                        seqs.push(s.clone());
+                        s.push(b'a');
+                        seqs.push(s);
+                        let mut k = 0;
+                        while k < len {
+                            idx[k] += 1;
+                            if idx[k] < conts.len() {
+                                break;
+                            }
+                            idx[k] = 0;
+                            k += 1;
+                        }
+                        if k == len {
+                            break;
+                        }
+                    }
+                }
+                for s in &seqs {
+                    case += 1;
+                    if case <= resume {
+                        continue;
+                    }
+                    wc.begin_case(case, &descriptor(0, which, s, &[]));
+                    n += 1;
+                    let parts = parts_light_cached(&mut cache, s.len()).clone();
+                    check_and_report(&mut wc, &mut local, which, s, &parts, "light", false);
+                }
+                wc.count("U_lattice", n);
+            }
+            // every scalar value, well-formed
+            for block in 0..0x110u32 {
+                unit += 1;
+                if unit % shards != shard {
+                    continue;
+                }
+                let mut n = 0u64;
+                for cp in (block << 12)..((block + 1) << 12) {
+                    let Some(c) = char::from_u32(cp) else { continue };
+                    case += 1;
+                    if case <= resume {
+                        continue;
+                    }
+                    let mut buf = [0u8; 4];
+                    let s = c.encode_utf8(&mut buf).as_bytes().to_vec();
+                    wc.begin_case(case, &descriptor(0, which, &s, &[]));
+                    n += 1;
+                    let whole = vec![s.len()];
+                    let singles = vec![1; s.len()];
+                    for parts in [&whole, &singles] {
+                        match catch(|| run_parts(which, &s, parts)) {
+                            Err(pn) => local.add(
+                                &mut wc,
+                                format!("{}:{}", which.name(), pn.key()),
+                                format!("{} decoder panicked on U+{:04X}: {}", which.name(), cp, pn.message),
+                                string_witness(which, &s, "light"),
+                            ),
+                            Ok(run) => {
+                                let ok = match (which, run.items.as_slice()) {
+                                    (Which::Utf8, [Out::Char(d)]) => *d == c,
+                                    (Which::Command, [Out::Command(TerminalCommand::Char(d))]) => *d == c,
+                                    (Which::Command, _) if c == '\x1b' => true,
+                                    (Which::Event, [Out::Event(TerminalEvent::Key(k))]) => {
+                                        // printable characters and everything above ASCII decode to themselves;
+                                        // C0 controls / DEL map to named keys through the fixed table (C04)
+                                        if cp >= 0x20 && cp != 0x7f {
+                                            k.name == KeyName::Char(c) && k.mode.is_empty()
+                                        } else {
+                                            true
+                                        }
+                                    }
+                                    (Which::Event, []) if c == '\x1b' => true,
+                                    // C0 controls that the key table does not name come out raw
+                                    (Which::Event, [Out::Event(TerminalEvent::Raw(r))]) if cp < 0x20 => r == &s,
+                                    _ => false,
+                                };
+                                if !ok || !run.problems.is_empty() {
+                                    local.add(
+                                        &mut wc,
+                                        format!("{}:scalar-roundtrip", which.name()),
+                                        format!(
+                                            "{} decoder: well-formed U+{:04X} fed as {:?} decoded as {:?} {:?}",
+                                            which.name(),
+                                            cp,
+                                            parts,
+                                            run.items,
+                                            run.problems
+                                        ),
+                                        string_witness(which, &s, "light"),
+                                    );
+                                }
+                            }
+                        }
+                    }
+                }
+                wc.count("U_scalars", n);
+            }
+        }
+    }
+
+    // ---- H: hostile-token lattice
+    {
+        let tpls = templates();
+        for (ti, t) in tpls.iter().enumerate() {
+            let nf = t.pieces.len() - 1;
+            let total = HOSTILE.len().pow(nf as u32);
+            // shard by (template, first field)
+            for f0 in 0..HOSTILE.len() {
+                unit += 1;
+                if unit % shards != shard {
+                    continue;
+                }
+                let mut n = 0u64;
+                let mut recognised = 0u64;
+                let sub = total / HOSTILE.len();
+                for rest in 0..sub {
+                    case += 1;
+                    if case <= resume {
+                        continue;
+                    }
+                    let mut idx = vec![f0];
+                    let mut r = rest;
+                    for _ in 1..nf {
+                        idx.push(r % HOSTILE.len());
+                        r /= HOSTILE.len();
+                    }
+                    let fields: Vec<&str> = idx.iter().map(|i| HOSTILE[*i]).collect();
+                    let s = render(t, &fields);
+                    let extra: Vec<u8> = std::iter::once(ti as u8).chain(idx.iter().map(|i| *i as u8)).collect();
+                    wc.begin_case(case, &descriptor(3, Which::Event, &[], &extra));
+                    n += 1;
+                    for which in [Which::Event, Which::Command] {
+                        let parts = parts_light_cached(&mut cache, s.len()).clone();
+                        check_and_report(&mut wc, &mut local, which, &s, &parts, "light", false);
+                    }
+                    // numeric fields
+                    if let Ok(run) = catch(|| run_parts(Which::Event, &s, &[s.len()])) {
+                        if matches!(run.items.first(), Some(Out::Event(e)) if !matches!(e, TerminalEvent::Raw(_))) {
+                            recognised += 1;
+                        }
+                        if let Some(problem) = field_problem(t, &fields, run.items.first()) {
+                            local.add(
+                                &mut wc,
+                                format!("event:numeric-field:{}", t.family),
+                                format!("{} (input {:?})", problem, esc(&s)),
+                                json!({"kind": "template", "template": ti, "fields": idx, "w_esc": esc(&s)}),
+                            );
+                        }
+                    }
+                }
+                wc.count("H_tokens", n);
+                wc.count("H_recognised", recognised);
+            }
+        }
+        // fixed tokens
+        for (i, s) in fixed_tokens().iter().enumerate() {
+            unit += 1;
+            if unit % shards != shard {
+                continue;
+            }
+            case += 1;
+            if case <= resume {
+                continue;
+            }
+            let _ = i;
+            wc.begin_case(case, &descriptor(0, Which::Event, &s[..s.len().min(200)], &[]));
+            for which in [Which::Event, Which::Command] {
+                let parts = if s.len() > 64 { vec![vec![s.len()], vec![1; s.len()]] } else { parts_light_cached(&mut cache, s.len()).clone() };
+                check_and_report(&mut wc, &mut local, which, s, &parts, "light", false);
+            }
+            wc.count("H_fixed", 1);
+        }
+    }
+
+    // ---- E: edits of base tokens
+    {
+        let bases = base_tokens();
+        let alpha = edit_alphabet();
+        let small = small_edit_alphabet();
+        for base in bases.iter() {
+            unit += 1;
+            if unit % shards != shard {
+                continue;
+            }
+            let mut n1 = 0u64;
+            let mut n2 = 0u64;
+            let mut firsts: Vec<Vec<u8>> = vec![];
+            single_edits(base, &alpha, &mut |s| {
+                case += 1;
+                if case <= resume {
+                    return;
+                }
+                wc.begin_case(case, &descriptor(0, Which::Event, s, &[]));
+                n1 += 1;
+                let parts = parts_light_cached(&mut cache, s.len()).clone();
+                check_and_report(&mut wc, &mut local, Which::Event, s, &parts, "light", false);
+                check_and_report(&mut wc, &mut local, Which::Command, s, &[vec![s.len()], vec![1; s.len()]], "light", false);
+            });
+            if p.double_edits && base.len() <= 24 {
+                single_edits(base, &small, &mut |s| firsts.push(s.to_vec()));
+                for f in &firsts {
+                    single_edits(f, &small, &mut |s| {
+                        case += 1;
+                        if case <= resume {
+                            return;
+                        }
+                        wc.begin_case(case, &descriptor(0, Which::Event, s, &[]));
+                        n2 += 1;
+                        check_and_report(&mut wc, &mut local, Which::Event, s, &[vec![s.len()], vec![1; s.len()]], "light", false);
+                    });
+                }
+            }
+            wc.count("E_single_edits", n1);
+            wc.count("E_double_edits", n2);
+            wc.count("E_bases", 1);
+        }
+    }
+
+    let finals: Vec<Violation> = local.viol.values().map(|(_, v)| v.clone()).collect();
+    for v in finals {
+        wc.violation(&v);
+    }
+    wc.finish();
+}
+
+fn describe_crash(desc: &[u8], how: &str) -> (String, String, Value) {
+    let kind = desc[0];
+    let which = which_from_u8(desc[1]);
+    let wl = desc[2] as usize;
+    let el = desc[3] as usize;
+    let w = &desc[4..4 + wl];
+    let extra = &desc[4 + wl..4 + wl + el];
+    if kind == 3 {
+        let ti = extra[0] as usize;
+        let idx: Vec<usize> = extra[1..].iter().map(|b| *b as usize).collect();
+        let t = &templates()[ti];
+        let fields: Vec<&str> = idx.iter().map(|i| HOSTILE[*i]).collect();
+        let s = render(t, &fields);
+        return (
+            format!("event:process-died:{}", t.family),
+            format!("decoder killed or stalled the process on {:?} ({how})", esc(&s)),
+            json!({"kind": "template", "template": ti, "fields": idx, "w_esc": esc(&s)}),
+        );
+    }
+    (
+        format!("{}:process-died", which.name()),
+        format!("{} decoder killed or stalled the process on input {:?} ({how})", which.name(), esc(w)),
+        string_witness(which, w, "light"),
+    )
+}
+
+pub fn run(ctx: &Ctx) -> Result<Report, String> {
+    let spec = workers::Spec {
+        prop: "C02",
+        tier: ctx.tier,
+        seed: ctx.seed,
+        shards: ctx.threads * 4,
+        parallel: ctx.threads,
+        extra_args: vec![],
+        stall_timeout: Duration::from_secs(20),
+        max_restarts_per_shard: 20,
+        deadline: Instant::now() + Duration::from_secs_f64(ctx.wall_cap_s),
+    };
+    let merged = workers::run_shards(&spec, &describe_crash)?;
+    let c = |k: &str| merged.counters.get(k).copied().unwrap_or(0);
+    let evaluations: u64 = merged.counters.iter().filter(|(k, _)| *k != "H_recognised" && *k != "E_bases").map(|(_, v)| *v).sum();
+    let p = params(ctx.tier);
+    let mut r = Report::new("exploration");
+    r.set("evaluations", evaluations)
+        .set("distinct_nontrivial", c("H_tokens") + c("H_fixed") + c("E_single_edits") + c("E_double_edits") + c("U_lattice"))
+        .set(
+            "rule",
+            "every case is a distinct byte string (per decoder) fed whole, at every single cut, byte by byte and byte by byte with \
+             empty reads (all partitions for length <= 5); B = all byte strings up to the stated length x 3 decoders; U = UTF-8 \
+             boundary lattice + every scalar value; H = family templates x hostile number lattice^fields + fixed malformed tokens; \
+             E = all single (thorough: double) byte edits of base tokens; non-trivial = escape-sequence shaped or malformed UTF-8 \
+             inputs (H, E, U lattice)",
+        )
+        .set("counters", json!(merged.counters))
+        .set("bounds", json!({"B_max_len": p.bytes_len, "double_edits": p.double_edits, "hostile_numbers": HOSTILE, "templates": templates().len(), "base_tokens": base_tokens().len()}))
+        .set("exhaustive", !merged.capped)
+        .set("capped", merged.capped)
+        .set("worker_crashes", merged.crashes)
+        .set(
+            "samples",
+            json!([
+                {"space": "H", "template": "\\e[<#;#;#M", "fields": ["0", "18446744073709551616", ""]},
+                {"space": "U", "bytes": "ed a0 80"},
+                {"space": "E", "base": "\\e[?1000;1$y", "edit": "replace byte 3 by \\x80"},
+                {"space": "B", "bytes": "1b 5b 75"},
+            ]),
+        );
+    r.assume("numeric fields: exact value, the field type's maximum, or the sequence is unrecognised; an empty parameter may read as 0 or 1");
+    r.assume("worker subprocesses: an abort or a 20 s stall is attributed to the published input and confirmed in a fresh process");
+    r.violations = merged.violations;
+    Ok(r)
+}
+
+pub fn replay(w: &Value) -> Result<(bool, String), String> {
+    match w["kind"].as_str() {
+        Some("template") => {
+            let ti = w["template"].as_u64().ok_or("template")? as usize;
+            let idx: Vec<usize> = w["fields"].as_array().ok_or("fields")?.iter().filter_map(|v| v.as_u64().map(|x| x as usize)).collect();
+            let t = templates().get(ti).cloned().ok_or("template index")?;
+            let fields: Vec<&str> = idx.iter().map(|i| HOSTILE[*i]).collect();
+            let s = render(&t, &fields);
+            let mut detail = format!("input {:?} fields {:?}\n", esc(&s), fields);
+            let mut bad = false;
+            for which in [Which::Event, Which::Command] {
+                match check_string(which, &s, &light_partitions(s.len()), false) {
+                    Ok(problems) => {
+                        for p in &problems {
+                            bad = true;
+                            detail += &format!("  {} {}: {}\n", which.name(), p.kind, p.detail);
+                        }
+                    }
+                    Err(p) => {
+                        bad = true;
+                        detail += &format!("  {} panic: {} ({}:{})\n", which.name(), p.message, p.file, p.line);
+                    }
+                }
+            }
+            if let Ok(run) = catch(|| run_parts(Which::Event, &s, &[s.len()])) {
+                detail += &format!("decoded: {:?}\n", run.items);
+                if let Some(p) = field_problem(&t, &fields, run.items.first()) {
+                    bad = true;
+                    detail += &format!("  numeric field: {p}\n");
+                }
+            }
+            Ok((bad, detail))
+        }
+        Some("string") => {
+            let which = Which::from_name(w["which"].as_str().unwrap_or("")).ok_or("which")?;
+            let s = unhex(w["w"].as_str().ok_or("w")?);
+            let parts = if s.len() <= 5 { all_partitions(s.len()) } else { light_partitions(s.len()) };
+            let mut detail = format!("input {:?} hex {}\n", esc(&s), hex(&s));
+            match check_string(which, &s, &parts, false) {
+                Ok(problems) => {
+                    for p in &problems {
+                        detail += &format!("  {}: {}\n", p.kind, p.detail);
+                    }
+                    if problems.is_empty() {
+                        detail += &format!("decoded: {:?}\n", run_parts(which, &s, &[s.len()]).items);
+                    }
+                    Ok((!problems.is_empty(), detail))
+                }
+                Err(p) => Ok((true, format!("{detail}panic: {} ({}:{})", p.message, p.file, p.line))),
+            }
+        }
+        _ => Err("unknown witness kind".into()),
+    }
 }
